@@ -141,4 +141,35 @@ def calcStats (n : Nat) (x y : Vec) (ec : Option Nat) : Option Stats :=
     | none => none
     | some bk => some (statsOf n x (subtract bk x y) (some bk))
 
+/-! ### specification side (used by the C44 theorems only) -/
+
+def StrictInc (n : Nat) (x : Vec) : Prop := ∀ i j, i < j → j < n → x i < x j
+def StrictDec (n : Nat) (x : Vec) : Prop := ∀ i j, i < j → j < n → x j < x i
+/-- "strictly monotonic x" of the property statement -/
+def StrictMonotonic (n : Nat) (x : Vec) : Prop := StrictInc n x ∨ StrictDec n x
+
+/-- the x range `[min x, max x]`; for monotonic x its end points are the first and the last sample -/
+def xLo (n : Nat) (x : Vec) : Rat := if x 0 ≤ x (n - 1) then x 0 else x (n - 1)
+def xHi (n : Nat) (x : Vec) : Rat := if x 0 ≤ x (n - 1) then x (n - 1) else x 0
+
+/-- the data the statistics are computed on: `y`, or `y` minus the linear background -/
+def ranked (n : Nat) (x y : Vec) (ec : Option Nat) : Vec :=
+  match ec with
+  | none => y
+  | some e =>
+    match bkg n e x y with
+    | none => y
+    | some bk => subtract bk x y
+
+/-- `c` lies between `a` and `b` (in either order) -/
+def Between (a b c : Rat) : Prop := (a ≤ c ∧ c ≤ b) ∨ (b ≤ c ∧ c ≤ a)
+
+/-- adjacent samples `i`, `i+1` straddle the level `mid` -/
+def Straddles (y : Vec) (mid : Rat) (i : Nat) : Prop := (mid < y i) ≠ (mid < y (i + 1))
+
+/-- edge_count values the property covers -/
+def ValidEdge (n : Nat) : Option Nat → Prop
+  | none => True
+  | some e => 1 ≤ e ∧ e < n
+
 end BlueskyVerif.PeakStats
